@@ -20,9 +20,11 @@ func RunPlain(r *vkit.Run, idx int, o Opts, nontrivial func(*Sim) bool) {
 		defer o.OnSim(s)()
 	}
 	defer func() {
+		s.remoteStop()
 		s.Finish(nontrivial(s))
 	}()
 	defer s.Recover()
+	s.remoteStart()
 	for i := 0; i < o.Txns && !s.Failed; i++ {
 		s.RunTxn(i)
 	}
@@ -39,6 +41,12 @@ func RunBubble(t *testing.T, r *vkit.Run, idx int, o Opts, nontrivial func(*Sim)
 			defer o.OnSim(s)()
 		}
 		s.DB.VerifSetGCInterval(time.Millisecond)
+		if o.Iterators && s.Rng.IntN(3) == 0 {
+			// change iterators that exist before the database's worker is started
+			for k := 0; k < 1+s.Rng.IntN(2); k++ {
+				s.createIter("pre-start", s.Tabs[s.Rng.IntN(len(s.Tabs))])
+			}
+		}
 		s.DB.Start()
 		s.O.Sleep = func() {
 			time.Sleep(time.Duration(1+s.Rng.IntN(4)) * time.Millisecond)
@@ -85,6 +93,13 @@ func RunBubble(t *testing.T, r *vkit.Run, idx int, o Opts, nontrivial func(*Sim)
 			}
 			if s.Rng.IntN(4) == 0 {
 				s.O.Sleep()
+			}
+			if o.Iterators && pause == nil && s.Rng.IntN(60) == 0 {
+				// stop and restart the background worker with iterators open
+				s.Logf("DB.Stop(); DB.Start()")
+				s.DB.Stop()
+				s.DB.Start()
+				s.restarts++
 			}
 			if o.Quiesce && s.Rng.IntN(12) == 0 {
 				if pause != nil {
